@@ -34,6 +34,8 @@ def render(skel, indent=""):
             out.append(f"{indent}ldx.w {st[1]}")
         elif k == "nop":
             out.append(f"{indent}nop")
+        elif k == "raw":
+            out.append(f"{indent}{st[1]}")
         elif k == "label":
             out.append(f"{indent}{st[1]}:")
         elif k == "star":
@@ -93,6 +95,8 @@ def walk(skel, lay, val, macros=None, on_label=None):
             lay.emit([B(0xAE)] + le(val(st[1]), 2))
         elif k == "nop":
             lay.emit([B(0xEA)])
+        elif k == "raw":
+            lay.emit([B(0)] * st[2])      # opaque statement of known size (bytes irrelevant for addresses)
         elif k == "label":
             if on_label:
                 on_label(st[1], lay.A)
